@@ -89,15 +89,26 @@ func (c patComp) build(rng *rand.Rand) string {
 		scheme = "ht~tp"
 	default: // custom of exactly Len bytes
 		const later = "abcdefghijklmnopqrstuvwxyz0123456789+-."
-		b := make([]byte, c.Scheme.Len)
-		for i := range b {
-			if i == 0 {
-				b[i] = 'x'
-			} else {
-				b[i] = later[rng.Intn(len(later))]
+		// custom schemes that merely START like a special one (filesystem, https2, nullx, ...) are ordinary custom schemes
+		pre := []string{"", "", "file", "http", "https", "null", "fil", "ws"}[rng.Intn(8)]
+		if len(pre) >= c.Scheme.Len {
+			pre = ""
+		}
+		for {
+			b := make([]byte, c.Scheme.Len)
+			copy(b, pre)
+			for i := len(pre); i < len(b); i++ {
+				if i == 0 {
+					b[i] = later[rng.Intn(26)]
+				} else {
+					b[i] = later[rng.Intn(len(later))]
+				}
+			}
+			scheme = string(b)
+			if scheme != "http" && scheme != "https" && scheme != "file" {
+				break
 			}
 		}
-		scheme = string(b)
 	}
 	sep := map[string]string{"ok": "://", "colon": ":", "single": ":/", "none": ""}[c.Sep]
 	var host string
